@@ -73,6 +73,25 @@ def o_gate(spec):
     require(tuple(g.params) == tuple(ps), lambda: f"{nm} params {g.params} != {ps}")
     R = ref.closed(nm, ps)
     require(ref.close(M, R, 1e-8), lambda: f"{nm}{ps} differs from closed form, max|d|={ref.maxdiff(M, R):.3g}")
+    # the matrix handed out belongs to the caller: using it as scratch space (the usual way of building a variant of a
+    # gate) must not change what the gate - or any other gate - is from then on
+    handed = g.matrix
+    try:
+        handed[0, 0] = 7
+        handed[handed.shape[0] - 1, 0] = -3
+        edited = True
+    except Exception:  # noqa: BLE001 - an immutable matrix cannot be edited: nothing to check
+        edited = False
+    if edited:
+        M2 = must(lambda: ref.npm(cgen.build_base(spec).matrix), f"{nm}.matrix (again)")
+        require(ref.close(M2, R, 1e-8), lambda: f"{nm}{ps}: after the caller edited the matrix it was handed, the gate's matrix is no longer its own (max|d|={ref.maxdiff(M2, R):.3g})")
+        M3 = must(lambda: ref.npm(g.matrix), f"{nm}.matrix (same object, again)")
+        require(ref.close(M3, R, 1e-8), lambda: f"{nm}{ps}: after the caller edited the matrix it was handed, the same gate object reports another matrix (max|d|={ref.maxdiff(M3, R):.3g})")
+        for other in ("I", "X", "CNOT", "Delay"):
+            if other != nm:
+                po = [0.5] * cgen.TABLE[other][1]
+                Mo = must(lambda: ref.npm(cgen.build_base({"g": other, "p": po}).matrix), f"{other}.matrix")
+                require(ref.close(Mo, ref.closed(other, po), 1e-8), lambda: f"after editing the matrix handed out for {nm}, {other} no longer has its own matrix")
     special = all(float(p) in (0.0,) or abs(float(p) / (P / 4) - round(float(p) / (P / 4))) < 1e-12 for p in ps)
     return {"classes": [nm], "nontrivial": bool(ps) and not special}
 
